@@ -155,6 +155,14 @@ func GenHeader(t *simrt.Tape, st string) (textproto.Header, []byte) {
 			}
 			raw.WriteString("\r\n")
 		}
+		if t.Choose(st, 40) == 0 {
+			// a header larger than a megabyte (many long fields), followed by
+			// a last short field so that a cut is visible in every field count
+			for i := 0; i < 310; i++ {
+				fmt.Fprintf(&raw, "X-Pad-%03d: %s\r\n", i, strings.Repeat("p", 3400))
+			}
+			raw.WriteString("X-Last: end\r\n")
+		}
 		raw.WriteString("\r\n")
 		h, err := textproto.ReadHeader(bufio.NewReader(bytes.NewReader(raw.Bytes())))
 		if err != nil {
